@@ -19,7 +19,7 @@ func init() {
 			"NaN and infinities are outside the statement (non-negative finite bitrates)",
 		},
 		BoundsQuick:    "decode: 64 exponents x mantissas {0..4095, 2^k, 2^k+-1, top 4096}; encode: 255 float exponents x 4096+46 mantissa patterns (all high 10 bits x 4 low patterns, walking ones/zeros) plus +-64 ulps around every power of two and the saturation point; negatives: the same patterns with the sign set; SSRC lists 0..257",
-		BoundsThorough: "decode: all 2^24 wire pairs; encode: all 2^31-2^23 non-negative finite float32 values in ascending order; negatives as quick; SSRC lists 0..257",
+		BoundsThorough: "decode: all 2^24 wire pairs; encode: all 2^31-2^23 non-negative finite float32 values in ascending order and all negative finite float32 values; SSRC lists 0..257; MarshalTo buffer sizes",
 	})
 }
 
@@ -282,6 +282,22 @@ func runC14(c *bx.Ctx) {
 				continue // -0 is zero, not negative
 			}
 			c14Negative(c, math.Float32frombits(0x80000000|e<<23|m))
+		}
+	}
+	if c.Thorough() {
+		c.Space("encode.negative-all")
+		const blk = 1 << 16
+		for start := uint32(0x80000001); start < 0xff800000; start += blk {
+			if !c.MineBlock(0) {
+				continue
+			}
+			if c.Expired() {
+				break
+			}
+			for i := uint32(0); i < blk && start+i < 0xff800000; i++ {
+				c.Add(1)
+				c14Negative(c, math.Float32frombits(start+i))
+			}
 		}
 	}
 	// ---- MarshalTo: caller-supplied buffers
